@@ -59,6 +59,27 @@ def extract(name, text, log):
     return text
 
 
+_KW = set('as break const continue crate else enum extern false fn for if impl in let loop match mod move mut pub ref return self Self static struct super trait true type unsafe use where while dyn'.split())
+def consistent_rename(ptoks, ctoks):
+    """{old: new} if the current text of an item is the pinned text with some identifiers consistently renamed (every occurrence, injectively,
+    nothing else changed); else None. Renaming a local variable or parameter does not change behaviour; the proof overlay is renamed accordingly."""
+    if len(ptoks) != len(ctoks): return None
+    ren = {}
+    for a, b in zip(ptoks, ctoks):
+        if a.t == b.t: continue
+        if not (re.match(r'[A-Za-z_]\w*$', a.t) and re.match(r'[A-Za-z_]\w*$', b.t)) or a.t in _KW or b.t in _KW: return None
+        if ren.get(a.t, b.t) != b.t: return None
+        ren[a.t] = b.t
+    if not ren or len(set(ren.values())) != len(ren): return None
+    names_c = set(t.t for t in ctoks)
+    for a, b in zip(ptoks, ctoks):
+        if a.t in ren and b.t != ren[a.t]: return None        # an occurrence that was not renamed: ambiguous
+    for old in ren:
+        if old in names_c: return None                         # the old name still occurs (as another entity): ambiguous
+    # the name of the item itself must not change (contracts are keyed by it)
+    return ren
+
+
 _CTRL = ('if', 'else', 'match', 'for', 'while', 'loop', 'return', 'break', 'continue', '?', '=>')
 def structural_change(ptoks, ctoks):
     """True if an edit changes the control structure of an item or the functions it calls (not just operators, constants, indices, conditions):
@@ -101,7 +122,8 @@ class Assembled:
         self.log = []        # extraction log
         self.problems = []   # lost anchors etc. (=> UNDECIDED)
         self.changed = {}    # module -> True if current != pinned
-        self.degrade = set() # (module, item key) to emit in degraded form
+        self.degrade = set() # (module, item key) to emit in degraded form (contract assumed)
+        self.bare = set()    # (module, item key) to emit with the header contract only: body ghost dropped, still VERIFIED
 
     def add(self, s):
         self.text += s
@@ -161,12 +183,21 @@ def assemble_module(asm, name, with_contracts=True):
             atoks, atail = tokenize(ait['text'])
             ptoks, _ = tokenize(pin_by[k]['text'])
             ctoks, _ = tokenize(cur_by[k]['text'])
+            ren = consistent_rename(ptoks, ctoks)
+            if ren:
+                # the only difference is a consistent renaming of local identifiers: the overlay (executable and ghost tokens alike) is renamed with it
+                for t in atoks + ptoks:
+                    if t.t in ren: t.t = ren[t.t]
+                asm.log.append('%s: %s: identifiers renamed in /repo (%s); the overlay follows the renaming' % (name, k, ', '.join('%s -> %s' % kv for kv in sorted(ren.items()))))
             try:
                 classify_ghost(atoks, ptoks)
             except WeaveError as e:
                 asm.problems.append('overlay-mismatch %s::%s: %s' % (name, k, e)); continue
             out, changed = weave(atoks, ptoks, ctoks)
             if changed and structural_change(ptoks, ctoks): changed = -abs(changed)   # negative: the control structure / the set of calls changed
+            if (name, k) in asm.bare and (name, k) not in asm.degrade:
+                out = degrade(out, 'fn' if k.startswith('fn ') else 'impl', assume=False)
+                asm.log.append('%s: %s: the code of this item was restructured so that the proof overlay of its BODY no longer applies; it is verified on this run from its contract header alone (no body hints)' % (name, k))
             if (name, k) in asm.degrade:
                 out = degrade(out, 'fn' if k.startswith('fn ') else 'impl')
                 asm.log.append('%s: DEGRADED %s: the code of this item was restructured so that the proof overlay of its body no longer applies; its contract is ASSUMED (external_body) on this run' % (name, k))
@@ -193,10 +224,10 @@ def assemble_module(asm, name, with_contracts=True):
     asm.add('} // mod %s\n' % name)
 
 
-def assemble(modules, spec_files=(), with_contracts=True, main='fn main() {}\n', main_file=None, degrade_items=()):
+def assemble(modules, spec_files=(), with_contracts=True, main='fn main() {}\n', main_file=None, degrade_items=(), bare_items=()):
     if main_file: main = open(os.path.join(SPEC, main_file)).read()
     asm = Assembled()
-    asm.degrade = set(degrade_items)
+    asm.degrade = set(degrade_items); asm.bare = set(bare_items)
     asm.add('#![feature(allocator_api, print_internals)]\n#![allow(unused_imports, dead_code, unused_variables, unused_mut, unused_assignments, non_snake_case, unused_parens, unused_braces)]\n'
             'use vstd::prelude::*;\n')
     if with_contracts:
